@@ -112,7 +112,7 @@ class Gen:
         self.table = {}
         self.feat = dict(bits=True, data=True, marker=True, regex=True, eos=True, ref=True, refsel=True, seq=True, opt=True,
                          move=True, em=True, clsopts=True, lambdas=True, offset_atoms=False, codegen_opts=False,
-                         begins_ref=True, defaults=True, regex_excl=False, shared_selector=False, generic_unpack=False, neg_moves=False,
+                         begins_ref=True, defaults=True, regex_excl=False, shared_selector=True, generic_unpack=False, neg_moves=False,
                          move_rate=0.15)
         if features:
             self.feat.update(features)
@@ -267,7 +267,7 @@ class Gen:
             l = first[1]
             dflt = 0 if l[0] == 'int' else b''
         has_pkt = any(o[1][0] == 'pkt' for o in opts)
-        # a deferred selector holds its packet options as shared instances (finding D9): only on request
+        # a deferred selector holds its packet options as shared instances (every parse copies them since the D9 fix)
         if has_pkt and not self.feat['shared_selector']:
             how = 'lambda'
         else:
